@@ -22,7 +22,23 @@ What a user relies on, and where exactly it stops being true:
   errors `extend` opens' errors, so its order is the request order except in the case above; in
   `Engine::process` `add_errors` only ever meets an empty error collection, and (since /repo a7785e6)
   the AlgoOrders output is kept next to the errors: the audit's outputs are the first stage's output
-  followed by the algo output whenever anything was generated.
+  followed by the algo output whenever anything was generated;
+* one `Engine::process` over a TEN-event alphabet (`EngEv`: Shutdown, the four commands
+  SendCancelRequests / SendOpenRequests / CancelOrders / ClosePositions, trading on / off, an account
+  balance item, the two reconnecting notices): the audit's error collection is, in closed form,
+  `from_iter(cancel-side failures).extend(open-side failures)` of the stage that failed
+  (`engine_audit_closed_form`), hence out of request order exactly when that stage has one cancel-side
+  failure and two or more open-side failures not all equal to it (`engine_audit_errors`,
+  `audit_reorders_iff`) - which happens in the generation stage (`AlgoBoundary`) AND on the command path
+  of `ClosePositions` (`close_positions_command_order`). Not in the alphabet: account items that exit a
+  position, market items (they take the same `update` path with another first-stage output), links that
+  are `Unhealthy` or missing.
+
+Definitional / bookkeeping statements (true by unfolding one definition; kept for reference, not
+results): `nom_readings_agree` / `oom_readings_agree` (the model has one `asRef` for `as_ref` / `borrow`
+/ `&into_iter`), the first two conjuncts of `engine_assemble` (`assembleErrors` / `assembleOutputs`
+repeat the match of `assemble`), `actionErrors` (mirrors `ActionOutput::unrecoverable_errors`), the
+middle conjunct of `runO_refines`.
 -/
 namespace BarterModel.Props.C03N
 open BarterModel.Collections
@@ -92,6 +108,15 @@ theorem nom_is_empty {α : Type} (a : NOM α) :
 theorem nom_is_empty_many_nil {α : Type} :
     (NOM.many ([] : List α)).len = 0 ∧ (NOM.many ([] : List α)).isEmpty = false := ⟨rfl, rfl⟩
 
+/-- … and `Many(vec![])` is the ONLY value for which `is_empty` and `len() == 0` disagree (no canonicity
+needed: `Many([x])` is fine). -/
+theorem nom_is_empty_iff_exact {α : Type} (a : NOM α) :
+    (a.isEmpty = true ↔ a.len = 0) ↔ a ≠ .many [] := by
+  cases a with
+  | none => simp [NOM.isEmpty, NOM.isNone, NOM.len]
+  | one x => simp [NOM.isEmpty, NOM.isNone, NOM.len]
+  | many l => cases l <;> simp [NOM.isEmpty, NOM.isNone, NOM.len]
+
 /-- `extend`: multiset, length, membership — for all values and all iterators. -/
 theorem nom_extend_perm {α : Type} [BEq α] [LawfulBEq α] (a : NOM α) (l : List α) (x : α) :
     (a.extend l).asRef.Perm (Spec.extend a.asRef l) ∧ (a.extend l).len = a.len + l.length ∧
@@ -109,6 +134,17 @@ theorem nom_extend_order_iff {α : Type} (a : NOM α) (l : List α) :
 /-- the exceptional arm: the single item of self ends up *behind* the items of other. -/
 theorem nom_extend_one_many_reversed {α : Type} (x y z : α) (l : List α) :
     ((NOM.one x).extend (y :: z :: l)).asRef = (y :: z :: l) ++ [x] := rfl
+
+/-- when all items are equal the order question does not arise: a permutation of a constant list is
+that list (used by the spec driver: after the reversing arm the order is determined again as soon as
+all items are equal). -/
+theorem perm_of_all_same {α : Type} {l r : List α} (x : α) (h : l.Perm r) (hr : ∀ y ∈ r, y = x) : l = r := by
+  have hl : ∀ y ∈ l, y = x := fun y hy => hr y (h.mem_iff.mp hy)
+  rw [List.eq_replicate_iff.mpr ⟨rfl, hl⟩, List.eq_replicate_iff.mpr ⟨rfl, hr⟩, h.length_eq]
+
+theorem nom_extend_all_same {α : Type} (a : NOM α) (l : List α) (x : α)
+    (h : ∀ y ∈ a.asRef ++ l, y = x) : (a.extend l).asRef = Spec.extend a.asRef l :=
+  perm_of_all_same x (NOM.extend_perm a l) h
 
 /-- `extend` keeps canonical form. -/
 theorem nom_extend_canonical {α : Type} {a : NOM α} (h : a.Canonical) (l : List α) :
@@ -157,6 +193,23 @@ theorem nom_cmp_eq_iff (a b : NOM Int) : NOM.cmp a b = .eq ↔ a = b := NOM.cmp_
 /-- … but is *not* the lexicographic order of the sequences: the variant is compared first. -/
 theorem nom_cmp_is_not_sequence_order :
     NOM.cmp (.one 9) (.many [1, 2]) = .lt ∧ NOM.cmpList [(9 : Int)] [1, 2] = .gt := by decide
+
+/-- In general: derived `Ord` compares the position of the variant first (`None < One(_) < Many(_)`),
+whatever the payloads are; within one variant it compares the payload (`One`: the items, `Many`: the
+vectors lexicographically). -/
+theorem nom_cmp_variant_first (a b : NOM Int) :
+    (a.tag < b.tag → NOM.cmp a b = .lt) ∧ (b.tag < a.tag → NOM.cmp a b = .gt) ∧
+      (∀ x y : Int, NOM.cmp (.one x) (.one y) = compare x y) ∧
+      (∀ l r : List Int, NOM.cmp (.many l) (.many r) = NOM.cmpList l r) := by
+  refine ⟨?_, ?_, fun _ _ => rfl, fun _ _ => rfl⟩
+  · intro h; cases a <;> cases b <;> simp_all [NOM.tag, NOM.cmp, compare, compareOfLessAndEq]
+  · intro h; cases a <;> cases b <;> simp_all [NOM.tag, NOM.cmp, compare, compareOfLessAndEq]
+
+/-- On canonical values the derived order is therefore a function of the two sequences: shorter class
+first (0 items < 1 item < 2 or more items), and within a class the lexicographic order of the items
+(`Spec.cmpSeq`) - this is what the spec driver prints as `ord`. -/
+theorem nom_cmp_of_canonical {a b : NOM Int} (ha : a.Canonical) (hb : b.Canonical) :
+    NOM.cmp a b = Spec.cmpSeq a.asRef b.asRef := NOM.cmp_eq_cmpSeq ha hb
 
 /-! ## OneOrMany -/
 
@@ -217,6 +270,15 @@ theorem oom_eq_iff_of_canonical {α : Type} {a b : OOM α} (ha : a.Canonical) (h
 
 theorem oom_cmp_eq_iff (a b : OOM Int) : OOM.cmp a b = .eq ↔ a = b := OOM.cmp_eq_iff a b
 
+/-- derived `Ord` on `OneOrMany`: `One(_) < Many(_)` whatever the payloads; on canonical values it is
+`Spec.cmpSeq` of the sequences. -/
+theorem oom_cmp_variant_first (a b : OOM Int) :
+    (a.tag < b.tag → OOM.cmp a b = .lt) ∧ (b.tag < a.tag → OOM.cmp a b = .gt) ∧
+      (a.Canonical → b.Canonical → OOM.cmp a b = Spec.cmpSeq a.asRef b.asRef) := by
+  refine ⟨?_, ?_, OOM.cmp_eq_cmpSeq⟩
+  · intro h; cases a <;> cases b <;> simp_all [OOM.tag, OOM.cmp, compare, compareOfLessAndEq]
+  · intro h; cases a <;> cases b <;> simp_all [OOM.tag, OOM.cmp, compare, compareOfLessAndEq]
+
 /-! ## Refinement of whole histories (the register machine the drivers run) -/
 
 /-- NoneOneOrMany register, any start value, any history of constructor / extend / map / mutate ops:
@@ -256,8 +318,9 @@ theorem runN_refines_exact (n : NOM Int) (ops : List NOp) (h : KeepsOrderN n ops
     exact ih _ h.2
 
 /-- OneOrMany register: same statements; an op panics in the model iff the list program is undefined
-(`From<Vec>` of the empty vector) and then changes nothing; from a non-empty value, with non-empty
-literals and `from_iter` arguments, the value stays non-empty. -/
+(`From<Vec>` of the empty vector - the middle conjunct; it does not depend on the register, see
+`runO_panicking_step`, which also states that a panicking op leaves both registers as they were); from
+a non-empty value, with non-empty literals and `from_iter` arguments, the value stays non-empty. -/
 theorem runO_refines (o : OOM Int) (ops : List OOp) :
     (runO o ops).asRef.Perm (runOSpec o.asRef ops) ∧
       (∀ (op : OOp) (s : List Int), op.apply o = none ↔ op.applySpec s = none) ∧
@@ -279,6 +342,18 @@ theorem runO_refines (o : OOM Int) (ops : List OOp) :
   refine ⟨hp ops o _ (List.Perm.refl _), fun op s => OOp.apply_none_iff o s op, fun h hs => ?_⟩
   have := hn ops o h hs
   exact ⟨this, by rw [OOM.len_eq]; exact List.length_pos_iff.mpr this⟩
+
+/-- Whether an op panics depends on the op alone (only `From<Vec>` of the empty vector does), not on
+the register; a panicking op changes nothing: the run continues from the same register, in the model
+and in the list program. -/
+theorem runO_panicking_step (o o' : OOM Int) (s : List Int) (op : OOp) (ops : List OOp) :
+    (op.apply o = none ↔ op.apply o' = none) ∧ (op.apply o = none ↔ op = .vec []) ∧
+      (op.apply o = none → runO o (op :: ops) = runO o ops ∧ runOSpec s (op :: ops) = runOSpec s ops) := by
+  refine ⟨by cases op <;> simp [OOp.apply], ?_, ?_⟩
+  · cases op <;> simp [OOp.apply, OOM.fromVec_eq_none_iff]
+  · intro h
+    have hs : op.applySpec s = none := (OOp.apply_none_iff o s op).mp h
+    simp [runO, runOSpec, h, hs]
 
 theorem runO_refines_exact (o : OOM Int) (ops : List OOp) (h : KeepsOrderO o ops) :
     (runO o ops).asRef = runOSpec o.asRef ops := by
@@ -304,15 +379,37 @@ theorem audit_add {ε ω κ : Type} (a : ProcessAudit ε ω κ) (o : ω) (es : L
   ⟨⟨ProcessAudit.addOutput_outputs a o, rfl, rfl⟩, ⟨ProcessAudit.addErrors_errors_perm a es, rfl, rfl⟩,
    ProcessAudit.addErrors_errors_eq_iff a es, fun h => ProcessAudit.addErrors_of_none h es⟩
 
-/-- a record with canonical errors is terminal iff its event is terminal or it carries an error;
-`FeedEnded` is terminal; `EngineAudit::Process` defers to the record. -/
-theorem audit_terminal_iff {ε ω κ : Type} (t : ε → Bool) (a : ProcessAudit ε ω κ) (h : a.errors.Canonical) :
+/-- a record is terminal iff its event is terminal or it carries an error - provided its error
+collection is not the literal `Many(vec![])` (nothing else is needed; see `audit_terminal_many_nil`
+for that value); `FeedEnded` is terminal; `EngineAudit::Process` defers to the record. -/
+theorem audit_terminal_iff {ε ω κ : Type} (t : ε → Bool) (a : ProcessAudit ε ω κ) (h : a.errors ≠ .many []) :
     (a.isTerminal t = true ↔ t a.event = true ∨ a.errors.len ≠ 0) ∧
       (EngineAudit.process a).isTerminal t = a.isTerminal t ∧
       (EngineAudit.feedEnded : EngineAudit ε ω κ).isTerminal t = true := by
   refine ⟨?_, rfl, rfl⟩
-  rw [ProcessAudit.isTerminal_iff h, NOM.len_eq]
-  simp [List.length_eq_zero_iff]
+  obtain ⟨e, o, er⟩ := a
+  cases er with
+  | none => simp [ProcessAudit.isTerminal, NOM.isEmpty, NOM.isNone, NOM.len]
+  | one x => simp [ProcessAudit.isTerminal, NOM.isEmpty, NOM.isNone, NOM.len]
+  | many l =>
+    cases l with
+    | nil => exact absurd rfl h
+    | cons x l => simp [ProcessAudit.isTerminal, NOM.isEmpty, NOM.isNone, NOM.len]
+
+/-- the previous formulation (canonical errors) is a special case -/
+theorem audit_terminal_iff_of_canonical {ε ω κ : Type} (t : ε → Bool) (a : ProcessAudit ε ω κ)
+    (h : a.errors.Canonical) :
+    (a.isTerminal t = true ↔ t a.event = true ∨ a.errors.len ≠ 0) ∧
+      (EngineAudit.process a).isTerminal t = a.isTerminal t ∧
+      (EngineAudit.feedEnded : EngineAudit ε ω κ).isTerminal t = true :=
+  audit_terminal_iff t a (by intro hn; rw [hn] at h; simp [NOM.Canonical] at h)
+
+/-- the excluded value: a record whose errors are `Many(vec![])` (only a literal / `Deserialize` can
+produce it) is terminal although it carries no error and its event is not terminal. -/
+theorem audit_terminal_many_nil {ε ω κ : Type} (t : ε → Bool) (e : ε) (o : NOM ω) (h : t e = false) :
+    (⟨e, o, .many []⟩ : ProcessAudit ε ω κ).isTerminal t = true ∧
+      (⟨e, o, .many []⟩ : ProcessAudit ε ω κ).errors.len = 0 := by
+  simp [ProcessAudit.isTerminal, NOM.isEmpty, NOM.isNone, NOM.len, h]
 
 /-- any history of audit operations (every constructor, `add_output`, `add_errors`,
 `with_process_and_err`) from any related start: event and **outputs are exactly** the abstract
@@ -425,180 +522,231 @@ theorem engine_assemble {ε ω κ : Type} (pre : Pre ε ω κ) (algo : Option (A
   · rw [h8, ProcessAudit.addErrors_outputs, ProcessAudit.addOutput_outputs]
   · rw [h8]; exact ProcessAudit.addErrors_of_none h7 _
 
-/-- the one situation in which the order of the audit's errors is not the request order -/
+/-- The reversing arm of `extend` met by the GENERATION stage: exactly one approved algo cancel and two
+or more approved algo opens failed unrecoverably. It is a NECESSARY condition for the audit's errors
+of a tick whose generation stage failed to be out of request order (`audit_reorders_iff`); it is not
+sufficient (generation must have run, and the open errors must not all equal the cancel error), and it
+is not the only such situation: a `Command::ClosePositions` meets the same arm on the command path
+(`CloseBoundary`, `close_positions_command_order`), whatever the algo requests are. -/
 def AlgoBoundary (dead : Nat → Bool) (algoC algoO : List Req) : Prop :=
   (failedSends dead (algoC.filter (!refused ·))).length = 1 ∧
     2 ≤ (failedSends dead (algoO.filter (!refused ·))).length
 
-/-- One `Engine::process` (any link table, trading state, event, strategy output): the audit is a
-canonical `Process` record of the event whose errors are a permutation of the unrecoverable send
-failures of the stage that failed, in request order unless (`AlgoBoundary`) exactly one approved algo
-cancel and at least two approved algo opens failed; it is terminal iff the event is `Shutdown` or
-there is such a failure. Its outputs are exactly the first stage's output (if any) followed by the
-AlgoOrders output whenever generation ran and the strategy generated anything — sent, failed
-(recoverably or not) or refused: nothing generated is dropped from the audit. -/
+/-- The same arm met on the COMMAND path: exactly one cancel and two or more opens of a
+`ClosePositionsStrategy` failed unrecoverably (`ActionOutput::ClosePositions(r) =>
+r.unrecoverable_errors()`, action/mod.rs:44, is `cancels.extend(opens)`, send_requests.rs:140-144). -/
+def CloseBoundary (dead : Nat → Bool) (cancels opens : List Req) : Prop :=
+  (failedSends dead cancels).length = 1 ∧ 2 ≤ (failedSends dead opens).length
+
+/-- The exact condition under which the errors of one `Engine::process` audit are NOT in request
+order: the stage that failed has exactly one cancel-side failure `k` and two or more open-side
+failures that are not all `k`. -/
+def AuditReorders (dead : Nat → Bool) (enabled : Bool) (ev : EngEv) (algoC algoO : List Req) : Prop :=
+  Spec.reorders (specErrorParts dead enabled ev algoC algoO).1
+    (specErrorParts dead enabled ev algoC algoO).2 = true
+
+instance (dead : Nat → Bool) (enabled : Bool) (ev : EngEv) (algoC algoO : List Req) :
+    Decidable (AuditReorders dead enabled ev algoC algoO) := by unfold AuditReorders; infer_instance
+
+/-- `Spec.reorders` spelled out. -/
+theorem reorders_iff {α : Type} [BEq α] [LawfulBEq α] (c o : List α) :
+    Spec.reorders c o = true ↔ ∃ k, c = [k] ∧ 2 ≤ o.length ∧ ∃ y ∈ o, y ≠ k := by
+  unfold Spec.reorders
+  match c with
+  | [] => simp
+  | [k] => simp
+  | _ :: _ :: _ => simp
+
+/-- **One `Engine::process`, in closed form** — any link table (`dead`), trading state, any of the TEN
+events of `EngEv` (Shutdown; the four commands SendCancelRequests / SendOpenRequests / CancelOrders /
+ClosePositions; trading on / off; an account balance item; the two reconnecting notices), any strategy
+output: the audit is a canonical `Process` record of the event, its outputs are the first stage's
+output (if any) followed by the AlgoOrders output whenever generation ran and the strategy generated
+anything (sent, failed or refused - nothing generated is dropped), and its error collection is
+**exactly** `from_iter(cancel-side failures).extend(open-side failures)` of the stage that failed
+(`specErrorParts`: the command's own sends; otherwise, if generation ran, the approved algo requests).
+Value and representation are determined; everything below is a corollary of this and of
+`nom_extend_order_iff`. -/
+theorem engine_audit_closed_form (dead : Nat → Bool) (enabled : Bool) (ev : EngEv) (algoC algoO : List Req) :
+    ∃ p, engineAudit dead enabled ev algoC algoO = .process p ∧ p.event = ev ∧ p.WF ∧
+      p.outputs.asRef = specEngineOutputs dead enabled ev algoC algoO ∧
+      p.errors = (NOM.fromIter (specErrorParts dead enabled ev algoC algoO).1).extend
+        (specErrorParts dead enabled ev algoC algoO).2 :=
+  engineAudit_closed_form dead enabled ev algoC algoO
+
+/-- One `Engine::process` over the ten-event alphabet: the audit is a canonical `Process` record of the
+event; its outputs are `specEngineOutputs`; its errors are a permutation of the unrecoverable send
+failures of the stage that failed; they are in request order (cancel side, then open side) **iff** not
+`AuditReorders`, and otherwise they are the open side followed by the single cancel-side failure; the
+record is terminal iff the event is `Shutdown` or there is such a failure. -/
 theorem engine_audit_errors (dead : Nat → Bool) (enabled : Bool) (ev : EngEv) (algoC algoO : List Req) :
     ∃ p, engineAudit dead enabled ev algoC algoO = .process p ∧ p.event = ev ∧ p.WF ∧
       p.outputs.asRef = specEngineOutputs dead enabled ev algoC algoO ∧
       p.errors.asRef.Perm (specEngineErrors dead enabled ev algoC algoO) ∧
-      (¬ AlgoBoundary dead algoC algoO → p.errors.asRef = specEngineErrors dead enabled ev algoC algoO) ∧
+      (p.errors.asRef = specEngineErrors dead enabled ev algoC algoO ↔
+        ¬ AuditReorders dead enabled ev algoC algoO) ∧
+      (AuditReorders dead enabled ev algoC algoO →
+        p.errors.asRef = (specErrorParts dead enabled ev algoC algoO).2 ++
+          (specErrorParts dead enabled ev algoC algoO).1) ∧
       (p.isTerminal EngEv.terminal = true ↔
         ev.terminal = true ∨ specEngineErrors dead enabled ev algoC algoO ≠ []) := by
-  -- the errors, computed
-  have key : ∃ p, engineAudit dead enabled ev algoC algoO = .process p ∧ p.event = ev ∧ p.WF ∧
-      p.outputs.asRef = specEngineOutputs dead enabled ev algoC algoO ∧
-      p.errors.asRef.Perm (specEngineErrors dead enabled ev algoC algoO) ∧
-      (¬ AlgoBoundary dead algoC algoO → p.errors.asRef = specEngineErrors dead enabled ev algoC algoO) := by
-    -- the generation stage, when it runs after a non-fatal first stage
-    have stage : ∀ (ev' : EngEv) (pre : Pre EngEv Out Nat) (en : Bool), pre.audit.event = ev' →
-        (∀ e, pre ≠ .shutdown e) → (∀ e u o, pre ≠ .commandFatal e u o) →
-        ∃ p, assemble pre (if en then some ⟨(generateAlgoOrders dead algoC algoO).isEmpty,
-              (generateAlgoOrders dead algoC algoO).unrecoverableErrors, .algo⟩ else none) = .process p ∧
-          p.event = ev' ∧ p.WF ∧
-          p.outputs.asRef = pre.audit.outputs.asRef ++
-            (if en && !(algoC.isEmpty && algoO.isEmpty) then [Out.algo] else []) ∧
-          p.errors.asRef.Perm (if en then failedSends dead (algoC.filter (!refused ·)) ++
-              failedSends dead (algoO.filter (!refused ·)) else []) ∧
-          (¬ AlgoBoundary dead algoC algoO →
-            p.errors.asRef = if en then failedSends dead (algoC.filter (!refused ·)) ++
-              failedSends dead (algoO.filter (!refused ·)) else []) := by
-      intro ev' pre en hev h1 h2
-      obtain ⟨p, hp, hpe, herr, hwf, hout, _⟩ := assemble_spec pre
-        (if en then some ⟨(generateAlgoOrders dead algoC algoO).isEmpty,
-              (generateAlgoOrders dead algoC algoO).unrecoverableErrors, .algo⟩ else none)
-      refine ⟨p, hp, hpe.trans hev, hwf, ?_, ?_, ?_⟩
-      · rw [hout, assembleOutputs_nonfatal pre en _ h1 h2, generateAlgoOrders_isEmpty]
-      · rw [herr, assembleErrors_nonfatal pre en _ h1 h2]
-        cases en
-        · exact List.Perm.refl _
-        · exact stageErrors_perm dead algoC algoO
-      · intro hb
-        rw [herr, assembleErrors_nonfatal pre en _ h1 h2]
-        cases en
-        · rfl
-        · exact stageErrors_exact dead algoC algoO hb
-    -- a command: fatal or not
-    have cmd : ∀ (ev' : EngEv) (r : List Req) (act : ActOut),
-        actionErrors act = (sendRequests dead r).unrecoverableErrors →
-        enginePre dead enabled ev' =
-          (match act.unrecoverableErrors with
-            | some u => (Pre.commandFatal ev' u Out.cmd, enabled)
-            | none => (Pre.command ev' Out.cmd, enabled)) →
-        specEngineErrors dead enabled ev' algoC algoO =
-          (if (failedSends dead r).isEmpty then
-            (if enabled then failedSends dead (algoC.filter (!refused ·)) ++
-              failedSends dead (algoO.filter (!refused ·)) else [])
-           else failedSends dead r) →
-        ∃ p, engineAudit dead enabled ev' algoC algoO = .process p ∧
-          p.event = ev' ∧ p.WF ∧
-          p.outputs.asRef = [Out.cmd] ++
-            (if (failedSends dead r).isEmpty && enabled && !(algoC.isEmpty && algoO.isEmpty)
-              then [Out.algo] else []) ∧
-          p.errors.asRef.Perm (specEngineErrors dead enabled ev' algoC algoO) ∧
-          (¬ AlgoBoundary dead algoC algoO → p.errors.asRef = specEngineErrors dead enabled ev' algoC algoO) := by
-      intro ev' r act hact hpre hspec
-      have ha := action_unrecoverable act
-      unfold engineAudit
-      rw [hpre, hspec]
-      cases hU : act.unrecoverableErrors with
-      | none =>
-        have hnil : failedSends dead r = [] := by
-          rw [← sendRequests_unrec, ← hact]; exact ha.1.mp hU
-        obtain ⟨p, hp, h1, h2, ho, h3, h4⟩ := stage ev' (Pre.command ev' Out.cmd) enabled rfl nofun nofun
-        refine ⟨p, hp, h1, h2, ?_, ?_, ?_⟩
-        · simpa [hnil, Pre.audit, ProcessAudit.withOutput, NOM.asRef] using ho
-        · simpa [hnil] using h3
-        · intro hb; simpa [hnil] using h4 hb
-      | some u =>
-        obtain ⟨hu1, _, hu3⟩ := ha.2.1 u hU
-        have hne : failedSends dead r ≠ [] := by
-          rw [← sendRequests_unrec, ← hact, ← hu1]; exact hu3
-        have hne' : (failedSends dead r).isEmpty = false := by
-          cases h : failedSends dead r with
-          | nil => exact absurd h hne
-          | cons _ _ => rfl
-        obtain ⟨p, hp, hpe, herr, hwf, hout, _⟩ := assemble_spec (Pre.commandFatal ev' u Out.cmd)
-          (if enabled then some ⟨(generateAlgoOrders dead algoC algoO).isEmpty,
-              (generateAlgoOrders dead algoC algoO).unrecoverableErrors, .algo⟩ else none)
-        have hval : p.errors.asRef = failedSends dead r := by
-          rw [herr]
-          simp only [assembleErrors, NOM.fromIter_asRef, OOM.intoIter_eq, hu1, hact, sendRequests_unrec]
-        refine ⟨p, hp, hpe, hwf, ?_, ?_, ?_⟩
-        · rw [hout]; simp [assembleOutputs, Pre.audit, NOM.asRef, hne']
-        · simp only [hne', Bool.false_eq_true, if_false]; exact hval ▸ List.Perm.refl _
-        · intro _; simp only [hne', Bool.false_eq_true, if_false]; exact hval
-    have hspecO : ∀ ev', specEngineOutputs dead enabled ev' algoC algoO =
-        firstOutputs enabled ev' ++
-          (if !ev'.terminal && !cmdFailed dead ev' && enabledAfter enabled ev' &&
-              !(algoC.isEmpty && algoO.isEmpty) then [Out.algo] else []) := by
-      intro ev'; unfold specEngineOutputs; split <;> simp
+  obtain ⟨p, hp, hev, hwf, hout, herr⟩ := engineAudit_closed_form dead enabled ev algoC algoO
+  have hperm : p.errors.asRef.Perm (specEngineErrors dead enabled ev algoC algoO) := by
+    rw [herr]
+    have := NOM.extend_perm (NOM.fromIter (specErrorParts dead enabled ev algoC algoO).1)
+      (specErrorParts dead enabled ev algoC algoO).2
+    rwa [NOM.fromIter_asRef] at this
+  refine ⟨p, hp, hev, hwf, hout, hperm, ?_, ?_, ?_⟩
+  · unfold AuditReorders specEngineErrors
+    rw [herr, Bool.not_eq_true, reorders_eq_false_iff]
+    have := NOM.extend_asRef_eq_append_iff (NOM.fromIter (specErrorParts dead enabled ev algoC algoO).1)
+      (specErrorParts dead enabled ev algoC algoO).2
+    rwa [NOM.fromIter_asRef] at this
+  · intro h; rw [herr]; exact extend_of_reorders _ _ h
+  · rw [ProcessAudit.isTerminal_iff hwf.2, hev]
+    have : p.errors.asRef ≠ [] ↔ specEngineErrors dead enabled ev algoC algoO ≠ [] := by
+      constructor
+      · intro h hn; rw [hn] at hperm; exact h (List.perm_nil.mp hperm)
+      · intro h hn; rw [hn] at hperm; exact h (List.perm_nil.mp hperm.symm)
+    rw [this]
+
+/-- `AuditReorders` in terms of the inputs: either a `ClosePositions` command failed with the reversing
+shape on its own sends (then the algo requests play no role), or no command send failed, the event is
+not `Shutdown`, trading is enabled after the event (generation ran), and the approved algo requests
+have the reversing shape. In particular `CloseBoundary` resp. `AlgoBoundary` is necessary, and so is
+"the open errors are not all equal to the cancel error". -/
+theorem audit_reorders_iff (dead : Nat → Bool) (enabled : Bool) (ev : EngEv) (algoC algoO : List Req) :
+    AuditReorders dead enabled ev algoC algoO ↔
+      (∃ c o, ev = .cmdClose c o ∧ Spec.reorders (failedSends dead c) (failedSends dead o) = true) ∨
+      (cmdFailed dead ev = false ∧ ev.terminal = false ∧ enabledAfter enabled ev = true ∧
+        Spec.reorders (failedSends dead (algoC.filter (!refused ·)))
+          (failedSends dead (algoO.filter (!refused ·))) = true) := by
+  unfold AuditReorders specErrorParts
+  cases hf : cmdFailed dead ev with
+  | true =>
+    simp only [if_true, Bool.true_eq_false, false_and, or_false]
     cases ev with
-    | shutdown =>
-      exact ⟨ProcessAudit.withEvent .shutdown, rfl, rfl, ⟨trivial, trivial⟩,
-        by rw [hspecO]; simp [firstOutputs, EngEv.terminal, ProcessAudit.withEvent, NOM.asRef],
-        by simp [specEngineErrors, EngEv.terminal, ProcessAudit.withEvent, NOM.asRef],
-        fun _ => by simp [specEngineErrors, EngEv.terminal, ProcessAudit.withEvent, NOM.asRef]⟩
-    | cmdCancel r =>
-      obtain ⟨p, hp, h1, h2, ho, h3, h4⟩ := cmd (.cmdCancel r) r (.cancelOrders (sendRequests dead r)) rfl rfl
-        (by simp [specEngineErrors, EngEv.terminal])
-      refine ⟨p, hp, h1, h2, ?_, h3, h4⟩
-      rw [ho, hspecO]
-      cases hf : failedSends dead r <;> simp [firstOutputs, cmdFailed, enabledAfter, EngEv.terminal, hf]
-    | cmdOpen r =>
-      obtain ⟨p, hp, h1, h2, ho, h3, h4⟩ := cmd (.cmdOpen r) r (.openOrders (sendRequests dead r)) rfl rfl
-        (by simp [specEngineErrors, EngEv.terminal])
-      refine ⟨p, hp, h1, h2, ?_, h3, h4⟩
-      rw [ho, hspecO]
-      cases hf : failedSends dead r <;> simp [firstOutputs, cmdFailed, enabledAfter, EngEv.terminal, hf]
-    | tsOn =>
-      obtain ⟨p, hp, h1, h2, ho, h3, h4⟩ := stage .tsOn (Pre.update .tsOn none) true rfl nofun nofun
-      refine ⟨p, hp, h1, h2, ?_,
-        by simpa [specEngineErrors, EngEv.terminal] using h3,
-        fun hb => by simpa [specEngineErrors, EngEv.terminal] using h4 hb⟩
-      rw [ho, hspecO]
-      simp [firstOutputs, cmdFailed, enabledAfter, EngEv.terminal, Pre.audit, ProcessAudit.withOutput,
-          ProcessAudit.withEvent, NOM.asRef]
-    | tsOff =>
-      obtain ⟨p, hp, h1, h2, ho, h3, h4⟩ := stage .tsOff (Pre.update .tsOff (if enabled then some (.td 0) else none)) false
-        (by cases enabled <;> rfl) nofun nofun
-      refine ⟨p, hp, h1, h2, ?_,
-        by simpa [specEngineErrors, EngEv.terminal] using h3,
-        fun hb => by simpa [specEngineErrors, EngEv.terminal] using h4 hb⟩
-      rw [ho, hspecO]
-      cases enabled <;> simp [firstOutputs, cmdFailed, enabledAfter, EngEv.terminal, Pre.audit, ProcessAudit.withOutput,
-          ProcessAudit.withEvent, NOM.asRef]
-    | mkt =>
-      obtain ⟨p, hp, h1, h2, ho, h3, h4⟩ := stage .mkt (Pre.update .mkt none) enabled rfl nofun nofun
-      refine ⟨p, hp, h1, h2, ?_,
-        by simpa [specEngineErrors, EngEv.terminal] using h3,
-        fun hb => by simpa [specEngineErrors, EngEv.terminal] using h4 hb⟩
-      rw [ho, hspecO]
-      simp [firstOutputs, cmdFailed, enabledAfter, EngEv.terminal, Pre.audit, ProcessAudit.withOutput,
-          ProcessAudit.withEvent, NOM.asRef]
-    | mktRe =>
-      obtain ⟨p, hp, h1, h2, ho, h3, h4⟩ := stage .mktRe (Pre.update .mktRe (some (.md 0))) enabled rfl nofun nofun
-      refine ⟨p, hp, h1, h2, ?_,
-        by simpa [specEngineErrors, EngEv.terminal] using h3,
-        fun hb => by simpa [specEngineErrors, EngEv.terminal] using h4 hb⟩
-      rw [ho, hspecO]
-      simp [firstOutputs, cmdFailed, enabledAfter, EngEv.terminal, Pre.audit, ProcessAudit.withOutput,
-          ProcessAudit.withEvent, NOM.asRef]
-    | accRe =>
-      obtain ⟨p, hp, h1, h2, ho, h3, h4⟩ := stage .accRe (Pre.update .accRe (some (.ad 0))) enabled rfl nofun nofun
-      refine ⟨p, hp, h1, h2, ?_,
-        by simpa [specEngineErrors, EngEv.terminal] using h3,
-        fun hb => by simpa [specEngineErrors, EngEv.terminal] using h4 hb⟩
-      rw [ho, hspecO]
-      simp [firstOutputs, cmdFailed, enabledAfter, EngEv.terminal, Pre.audit, ProcessAudit.withOutput,
-          ProcessAudit.withEvent, NOM.asRef]
-  obtain ⟨p, hp, hev, hwf, hout, hperm, hex⟩ := key
-  refine ⟨p, hp, hev, hwf, hout, hperm, hex, ?_⟩
-  rw [ProcessAudit.isTerminal_iff hwf.2, hev]
-  have : p.errors.asRef ≠ [] ↔ specEngineErrors dead enabled ev algoC algoO ≠ [] := by
-    constructor
-    · intro h hn; rw [hn] at hperm; exact h (List.perm_nil.mp hperm)
-    · intro h hn; rw [hn] at hperm; exact h (List.perm_nil.mp hperm.symm)
-  rw [this]
+    | cmdClose c o =>
+      simp only [cmdErrorParts, EngEv.cmdClose.injEq]
+      exact ⟨fun h => ⟨c, o, ⟨rfl, rfl⟩, h⟩, fun ⟨_, _, ⟨h1, h2⟩, h⟩ => h1 ▸ h2 ▸ h⟩
+    | cmdCancel r => simp [cmdErrorParts, Spec.reorders]; cases failedSends dead r with
+      | nil => simp
+      | cons x xs => cases xs <;> simp
+    | cmdCancelOrders r => simp [cmdErrorParts, Spec.reorders]; cases failedSends dead r with
+      | nil => simp
+      | cons x xs => cases xs <;> simp
+    | cmdOpen r => simp [cmdErrorParts, Spec.reorders]
+    | _ => simp [cmdErrorParts, Spec.reorders]
+  | false =>
+    have hno : ¬ ∃ c o, ev = EngEv.cmdClose c o ∧
+        Spec.reorders (failedSends dead c) (failedSends dead o) = true := by
+      rintro ⟨c, o, rfl, h⟩
+      simp only [cmdFailed, cmdErrorParts, Bool.not_eq_false', List.isEmpty_iff,
+        List.append_eq_nil_iff] at hf
+      rw [hf.1] at h; simp [Spec.reorders] at h
+    simp only [Bool.false_eq_true, if_false, hno, false_or, true_and]
+    cases enabledAfter enabled ev <;> cases ev.terminal <;> simp [Spec.reorders]
+
+/-- `Spec.reorders` needs the boundary shape: one item on the cancel side, two or more on the open side. -/
+theorem reorders_shape {α : Type} [BEq α] [LawfulBEq α] {c o : List α} (h : Spec.reorders c o = true) :
+    c.length = 1 ∧ 2 ≤ o.length := by
+  obtain ⟨k, rfl, hl, _⟩ := (reorders_iff c o).mp h
+  exact ⟨rfl, hl⟩
+
+/-- The previous formulation (kept): for every event other than `ClosePositions`, outside
+`AlgoBoundary` the audit's errors are in request order. (For `ClosePositions` this is false:
+`close_positions_reorders_outside_algo_boundary`.) -/
+theorem engine_audit_errors_of_not_algo_boundary (dead : Nat → Bool) (enabled : Bool) (ev : EngEv)
+    (algoC algoO : List Req) (hev : ∀ c o, ev ≠ .cmdClose c o) (hb : ¬ AlgoBoundary dead algoC algoO) :
+    ∃ p, engineAudit dead enabled ev algoC algoO = .process p ∧
+      p.errors.asRef = specEngineErrors dead enabled ev algoC algoO := by
+  obtain ⟨p, hp, _, _, _, _, hiff, _, _⟩ := engine_audit_errors dead enabled ev algoC algoO
+  refine ⟨p, hp, hiff.mpr ?_⟩
+  rw [audit_reorders_iff]
+  rintro (⟨c, o, rfl, _⟩ | ⟨_, _, _, h⟩)
+  · exact hev c o rfl
+  · exact hb (reorders_shape h)
+
+/-- … and generation not having run is enough, whatever the algo requests look like (the spec driver
+prints `errors` in these cases): trading disabled after the event, `Shutdown`, or a command whose own
+sends failed - unless that command is a `ClosePositions` with the reversing shape. -/
+theorem engine_audit_errors_of_no_generation (dead : Nat → Bool) (enabled : Bool) (ev : EngEv)
+    (algoC algoO : List Req) (hev : ∀ c o, ev ≠ .cmdClose c o)
+    (hg : enabledAfter enabled ev = false ∨ ev.terminal = true ∨ cmdFailed dead ev = true) :
+    ∃ p, engineAudit dead enabled ev algoC algoO = .process p ∧
+      p.errors.asRef = specEngineErrors dead enabled ev algoC algoO := by
+  obtain ⟨p, hp, _, _, _, _, hiff, _, _⟩ := engine_audit_errors dead enabled ev algoC algoO
+  refine ⟨p, hp, hiff.mpr ?_⟩
+  rw [audit_reorders_iff]
+  rintro (⟨c, o, rfl, _⟩ | ⟨h1, h2, h3, _⟩)
+  · exact hev c o rfl
+  · rcases hg with h | h | h
+    · rw [h3] at h; cases h
+    · rw [h2] at h; cases h
+    · rw [h1] at h; cases h
+
+/-- **The command path of `Command::ClosePositions`**, for any trading state and any algo requests:
+if one of its own sends fails unrecoverably, the audit is the fatal record - output `Commanded` only
+(generation does not run), terminal - and its errors are exactly
+`from_iter(failed cancels).extend(failed opens)`: cancels first, then opens, **iff** it is not the
+case that exactly one cancel failed (error `k`) and two or more opens failed with errors not all `k`;
+in that case they are the opens' errors followed by the cancel's. If none of its sends fails the
+record carries the errors of the generation stage instead (covered by `engine_audit_errors`). -/
+theorem close_positions_command_order (dead : Nat → Bool) (enabled : Bool) (cancels opens algoC algoO : List Req)
+    (hfail : failedSends dead cancels ++ failedSends dead opens ≠ []) :
+    ∃ p, engineAudit dead enabled (.cmdClose cancels opens) algoC algoO = .process p ∧
+      p.outputs.asRef = [Out.cmd] ∧
+      p.errors = (NOM.fromIter (failedSends dead cancels)).extend (failedSends dead opens) ∧
+      (p.errors.asRef = failedSends dead cancels ++ failedSends dead opens ↔
+        Spec.reorders (failedSends dead cancels) (failedSends dead opens) = false) ∧
+      (Spec.reorders (failedSends dead cancels) (failedSends dead opens) = true →
+        p.errors.asRef = failedSends dead opens ++ failedSends dead cancels) ∧
+      p.isTerminal EngEv.terminal = true := by
+  obtain ⟨p, hp, _, hwf, hout, herr⟩ :=
+    engineAudit_closed_form dead enabled (.cmdClose cancels opens) algoC algoO
+  have hcf : cmdFailed dead (.cmdClose cancels opens) = true := by
+    simp only [cmdFailed, cmdErrorParts, Bool.not_eq_true', List.isEmpty_eq_false_iff]
+    exact hfail
+  have hparts : specErrorParts dead enabled (.cmdClose cancels opens) algoC algoO =
+      (failedSends dead cancels, failedSends dead opens) := by
+    unfold specErrorParts; rw [hcf]; rfl
+  rw [hparts] at herr
+  refine ⟨p, hp, ?_, herr, ?_, ?_, ?_⟩
+  · rw [hout, specEngineOutputs]; simp [hcf, firstOutputs]
+  · rw [herr, reorders_eq_false_iff]
+    have := NOM.extend_asRef_eq_append_iff (NOM.fromIter (failedSends dead cancels)) (failedSends dead opens)
+    rwa [NOM.fromIter_asRef] at this
+  · intro h; rw [herr]; exact extend_of_reorders _ _ h
+  · rw [ProcessAudit.isTerminal_iff hwf.2]
+    right
+    intro hn
+    have hperm := NOM.extend_perm (NOM.fromIter (failedSends dead cancels)) (failedSends dead opens)
+    rw [← herr, hn, NOM.fromIter_asRef] at hperm
+    exact hfail (List.perm_nil.mp hperm.symm)
+
+/-- Witness at the point `engine_audit_errors_of_not_algo_boundary` excludes: exchanges 1 and 2 dead,
+`ClosePositions` whose strategy returns one cancel (exchange 1) and two opens (exchange 2), NO algo
+request at all (so `AlgoBoundary` is false): the audit lists `[open, open, cancel]`. -/
+theorem close_positions_reorders_outside_algo_boundary :
+    let dead : Nat → Bool := fun e => e == 1 || e == 2
+    (match engineAudit dead true (.cmdClose [(1, 1)] [(2, 2), (2, 3)]) [] [] with
+      | .process p => p.errors.asRef | .feedEnded => []) = [2, 2, 1] ∧
+    specEngineErrors dead true (.cmdClose [(1, 1)] [(2, 2), (2, 3)]) [] [] = [1, 2, 2] ∧
+    ¬ AlgoBoundary dead [] [] ∧ CloseBoundary dead [(1, 1)] [(2, 2), (2, 3)] ∧
+    AuditReorders dead true (.cmdClose [(1, 1)] [(2, 2), (2, 3)]) [] [] := by
+  refine ⟨by decide, by decide, ?_, ?_, by decide⟩
+  · simp [AlgoBoundary, failedSends]
+  · simp [CloseBoundary, failedSends]
+
+/-- … and `AlgoBoundary` alone does not reorder: with trading disabled generation does not run, and
+with three identical errors there is nothing to reorder. -/
+theorem algo_boundary_is_not_sufficient :
+    let dead : Nat → Bool := fun e => e == 1 || e == 2
+    (AlgoBoundary dead [(1, 1)] [(2, 2), (2, 3)] ∧
+      ¬ AuditReorders dead false .mkt [(1, 1)] [(2, 2), (2, 3)]) ∧
+    (AlgoBoundary dead [(1, 1)] [(1, 2), (1, 3)] ∧
+      ¬ AuditReorders dead true .mkt [(1, 1)] [(1, 2), (1, 3)]) := by
+  refine ⟨⟨?_, by decide⟩, ⟨?_, by decide⟩⟩ <;> simp [AlgoBoundary, failedSends, refused]
 
 /-! ## Non-vacuity and the reported facts on concrete values -/
 
@@ -630,6 +778,25 @@ example : AlgoBoundary (fun e => e == 1 || e == 2) [(1, 1)] [(2, 2), (2, 3)] := 
   simp [AlgoBoundary, failedSends, refused]
 example : ¬ AlgoBoundary (fun e => e == 1 || e == 2) [(1, 1), (2, 5)] [(2, 2), (0, 3)] := by
   simp [AlgoBoundary, failedSends, refused]
+-- the two commands added to the alphabet: ClosePositions reorders on the command path, CancelOrders never does
+example : (match engineAudit (fun e => e == 1 || e == 2) false (.cmdClose [(1, 1)] [(2, 2), (2, 3)]) [] [] with
+    | .process p => p.errors | .feedEnded => .none) = .many [2, 2, 1] := by decide
+example : (match engineAudit (fun e => e == 1 || e == 2) true (.cmdClose [(1, 1)] [(1, 2), (1, 3)]) [] [] with
+    | .process p => p.errors | .feedEnded => .none) = .many [1, 1, 1] := by decide
+example : (match engineAudit (fun e => e == 1 || e == 2) true (.cmdCancelOrders [(0, 1), (1, 2), (2, 3), (2, 4)]) [] [] with
+    | .process p => p.errors | .feedEnded => .none) = .many [1, 2, 2] := by decide
+-- a ClosePositions whose sends all succeed lets the generation stage run
+example : (match engineAudit (fun e => e == 1 || e == 2) true (.cmdClose [(0, 1)] [(0, 2)]) [(1, 4)] [(2, 5), (2, 6)] with
+    | .process p => (p.outputs, p.errors) | .feedEnded => (.none, .none)) = (.many [.cmd, .algo], .many [2, 2, 1]) := by
+  decide
+example : Spec.reorders [1] [2, 2] = true ∧ Spec.reorders [1] [1, 1] = false ∧ Spec.reorders [1] [2] = false ∧
+    Spec.reorders [1, 1] [2, 2] = false ∧ Spec.reorders ([] : List Nat) [2, 2] = false := by decide
+-- the hypothesis of `close_positions_command_order` and of `audit_terminal_iff`
+example : failedSends (fun e => e == 1 || e == 2) [(1, 1)] ++ failedSends (fun e => e == 1 || e == 2) [(2, 2), (2, 3)] ≠ [] := by
+  decide
+example : (NOM.many [7] : NOM Int) ≠ .many [] := by decide
+-- derived Ord on canonical values: the length class first
+example : Spec.cmpSeq [9] [1, 2] = .lt ∧ Spec.cmpSeq [1, 2] [1, 1, 9] = .gt ∧ Spec.cmpSeq [] [0] = .lt := by decide
 -- the relation the audit refinement starts from holds for a fresh record
 example : AuditRel (ProcessAudit.withEvent false) (false, ⟨[], []⟩) :=
   ⟨rfl, rfl, List.Perm.refl _, trivial, trivial⟩
